@@ -205,6 +205,69 @@ def all_int_slots_validated(prog, ev):
     return ok and need <= labels, sites
 
 
+# ------------------------------------------------------------------------------------------------ selector tables
+SELECTOR_OF_RULE = {"name_selector": "Name", "wildcard_selector": "Wildcard", "index_selector": "Index", "slice_selector": "Slice",
+                    "filter_selector": "Filter"}
+
+
+def selector_tables(prog, ev, rep, rid):
+    """Parser: in `selector()` the arm of each grammar rule builds exactly its own Selector variant, unconditionally.
+    Evaluator: every arm of `impl Query for Selector` that can take a variant hands it to that variant's handler (one
+    handler per variant, found in the unconditional arm); no arm re-routes some values of a variant elsewhere."""
+    rep.rule(rid, "selector kinds are not rewritten into each other: the AST builder maps each grammar rule to its own Selector "
+             "variant (a slice is never lowered to an index or a wildcard, ...), and the evaluator hands every value of a variant "
+             "to that variant's one handler (no fast path that treats `[:]` as `*`)")
+    sp = "crate::parser::selector"
+    if sp not in prog.bodies:
+        rep.unrecognised(rid, "parser/selector", "-", "fn selector not found")
+    else:
+        t = ev.summary(sp)
+        where = prog.loc_of(sp)
+        if t.k != "match":
+            rep.unrecognised(rid, "parser/selector", where, "not a match on the child rule")
+        else:
+            for rule, want in SELECTOR_OF_RULE.items():
+                sel = tables.select(t.a[1], ("v", rule, []))
+                key = "parser/%s" % rule
+                if len(sel) != 1 or sel[0][1] != "definite":
+                    rep.unrecognised(rid, key, where, "no unique arm for Rule::%s" % rule); continue
+                body = t.a[1][sel[0][0]][2]
+                built = sorted({x.a[1] for x in subterms(body) if x.k == "adt" and x.a[0] == M + "Selector"})
+                rep.check(built == [want], rid, key, where, "Rule::%s -> Selector::%s" % (rule, want),
+                          "the arm for Rule::%s builds %s: a `%s` of the query is (for some spellings) evaluated as another selector kind" % (
+                              rule, ["Selector::" + b for b in built] or "no selector", rule.replace("_", " ")))
+    try:
+        pp = prog.impl_method("crate::query::Query", M + "Selector", "process")
+    except Exception:
+        rep.unrecognised(rid, "evaluator/dispatch", "-", "impl Query for Selector not found"); return
+    t = ev.summary(pp)
+    where = prog.loc_of(pp)
+    if t.k != "match":
+        rep.unrecognised(rid, "evaluator/dispatch", where, "not a match on the selector"); return
+
+    def handler(body):
+        cs = [x.a[0] for x in subterms(body) if x.k == "call" and x.a[0] in prog.bodies and prog.items[x.a[0]]["kind"] in ("Fn", "AssocFn")
+              and not x.a[0].endswith("flat_map")]
+        fs = [x.a[0] for x in subterms(body) if x.k == "fnitem" and x.a[0] in prog.bodies]
+        for x in subterms(body):
+            if x.k == "closure":
+                b = ev.apply(x, [Tm("param", (21, "d"))])
+                cs += [y.a[0] for y in subterms(b) if y.k == "call" and y.a[0] in prog.bodies and prog.items[y.a[0]]["kind"] in ("Fn", "AssocFn")]
+        return sorted(set(cs + fs))
+    for vn, nf in tables.variants_of(prog, M + "Selector") or []:
+        arms = []
+        for i, (p, g, b) in enumerate(t.a[1]):
+            r = tables.pat_match(p, ("v", vn, [tables.ANY] * nf))
+            if r != tables.NO:
+                arms.append((i, p, g, b))
+        key = "evaluator/%s" % vn
+        hs = [handler(b) for _, _, _, b in arms]
+        same = bool(hs) and all(h == hs[0] and h for h in hs)
+        rep.check(same, rid, key, where, "every %s goes to %s" % (vn, hs[0] if hs else "?"),
+                  "values of Selector::%s are handled by different code depending on their fields (%s): a special case re-routes some of them" % (
+                      vn, [h for h in hs]))
+
+
 # ------------------------------------------------------------------------------------------------ literals
 def literal_exact(prog, ev, rep, rid):
     """A literal of the query denotes exactly the value written: Literal::process hands the payload of each variant to
